@@ -117,14 +117,14 @@ def run(ctx, mod, CtxClass):
         finally:
             shutil.rmtree(sd, ignore_errors=True)
     # ---- (4) behaviour-preserving refactorings written by independent sub-agents (benign/b1): the check must stay silent ---------
-    ctx.rule('REFACTORING', 'each kept behaviour-preserving refactoring of the code this property depends on (benign/b1/%s-*, written by independent sub-agents) leaves this check silent '
-             'when applied to a scratch copy; the four refactorings known to raise a false alarm (DESIGN.md 10.6, benign/b1/KNOWN_NOT_SILENT.txt) are not run' % pid, floor=None)
+    ctx.rule('REFACTORING', 'each kept behaviour-preserving refactoring of the code this property depends on (benign/b1 and benign/b2 /%s-*, written by independent sub-agents) leaves this check silent '
+             'when applied to a scratch copy; the refactorings known to raise a false alarm (DESIGN.md 10.6, benign/*/KNOWN_NOT_SILENT.txt) are not run' % pid, floor=None)
     skip = set()
-    kp = os.path.join(VERIF, 'benign', 'b1', 'KNOWN_NOT_SILENT.txt')
-    if os.path.exists(kp):
-        skip = {l.split()[0] for l in open(kp) if l.strip() and not l.startswith('#')}
-    for d in sorted(glob.glob(os.path.join(VERIF, 'benign', 'b1', pid + '-*'))):
-        bid = os.path.basename(d)
+    for kp in glob.glob(os.path.join(VERIF, 'benign', '*', 'KNOWN_NOT_SILENT.txt')):
+        rnd = os.path.basename(os.path.dirname(kp))
+        skip |= {rnd + '/' + l.split()[0] for l in open(kp) if l.strip() and not l.startswith('#')}
+    for d in sorted(glob.glob(os.path.join(VERIF, 'benign', '*', pid + '-*'))):
+        bid = os.path.basename(os.path.dirname(d)) + '/' + os.path.basename(d)
         if bid in skip:
             continue
         sd = ctool.scratch_copy()
